@@ -256,55 +256,10 @@ func c18Oracle(info *runInfo, res *verifsim.Result) {
 			res.Violate("C18.fail", "stopped", "%s: monitor ended at %s: %s", ifn, ms(e.T), e.Err)
 		}
 	}
-	// every message delivered to the interface's socket (well before the stop) is handled
-	delivered, handled := 0, 0
-	// a receive that is slow to return and only completes after the stop keeps
-	// everything queued behind it from being read: exempt from that park on
-	exemptFrom := int64(1) << 62
 	stopT0, _, _ := stopInstant(h, 0)
-	for i := range h.ev {
-		e := &h.ev[i]
-		if e.K != "read.post" || e.If != ifn {
-			continue
-		}
-		for j := i + 1; j < len(h.ev); j++ {
-			x := &h.ev[j]
-			if x.K == "read.exit" && x.G == e.G {
-				if stopT0 != 0 && x.T >= stopT0 && e.T < exemptFrom {
-					exemptFrom = e.T
-				}
-				break
-			}
-		}
-	}
-	// packets queued behind a slow receive on a connection that is then replaced are
-	// lost with it: deliveries to such a generation are not counted
-	slowGen := map[int]bool{}
-	for i := range h.ev {
-		if e := &h.ev[i]; e.K == "read.post" && e.If == ifn {
-			slowGen[e.Gen] = true
-		}
-	}
-	for i := range h.ev {
-		e := &h.ev[i]
-		if g := h.byKey[genKey(e.Node, e.If, e.Gen)]; g != nil && slowGen[e.Gen] && (g.endSeq != 0 && (stopSeq == 0 || g.endSeq < stopSeq)) {
-			continue
-		}
-		if (e.K == "act.ra" || e.K == "act.rs" || e.K == "act.ns" || e.K == "act.na") && e.If == ifn && e.Err == "" && (stopSeq == 0 || e.Seq < stopSeq) && h.deliveredAlive(e) {
-			delivered++
-		}
-	}
-	for _, g := range h.gens {
-		handled += len(g.rxs) // (a receive that was slow to return may complete after the stop)
-	}
-	if exemptFrom != int64(1)<<62 {
-		// a slow receive was still in progress at the stop: what was queued behind
-		// it is legitimately left unread (other runs judge this rule)
-		delivered = 0
-	}
-	if handled < delivered {
-		res.Violate("C18.fail", "unhandled", "%s: %d messages were delivered to the monitoring socket but only %d were ever read and described", ifn, delivered, handled)
-	}
+	h.unreadDeliveries(ifn, stopT0, func() { res.Probe("connection_given_up_while_listener_busy") }, func(g *generation, delivered int, cutT int64) {
+		res.Violate("C18.fail", "unhandled", "%s gen %d: %d messages were delivered to the monitoring socket before %s but only %d were ever read and described", ifn, g.gen, delivered, ms(cutT), len(g.rxs))
+	})
 	if len(h.gens) > 1 {
 		res.Probe("reinitialised")
 	}
